@@ -14,6 +14,7 @@ def sh(cmd, **kw):
     return subprocess.run(cmd, shell=True, text=True, capture_output=True, **kw)
 
 def tests(wt):
+    os.makedirs(f'{wt}/target', exist_ok=True)  # (a demonstration may write its scratch files under <manifest dir>/target)
     r = sh(f'cd {wt} && CARGO_TARGET_DIR={TGT} cargo test --offline 2>&1 | grep -E "^test result" | head -3')
     out = r.stdout
     passed = failed = 0
